@@ -11,13 +11,18 @@ TYPES = [('int', '1'), ('str', "'s'"), ('float', '1.5'), ('bool', 'True')]
 
 
 def module_src(i, imports, variant, comment):
+    """module i: imports f_j and the module-level variable v_j of every imported module; its own v_i is
+    inferred from the first import (so types flow along import chains), f_i returns a literal of the variant type"""
     t, lit = TYPES[variant % len(TYPES)]
-    lines = ['from proj.m%d import f%d' % (j, j) for j in imports]
+    lines = ['from proj.m%d import f%d, v%d' % (j, j, j) for j in imports]
     if lines:
         lines.append('')
+    lines.append('v%d = %s' % (i, 'v%d' % imports[0] if imports else lit))
+    lines.append('')
     lines.append('def f%d() -> %s:' % (i, t))
     for j in imports:
         lines.append('\ty%d = f%d()' % (j, j))
+        lines.append('\tz%d = v%d' % (j, j))
     lines.append('\treturn %s' % lit)
     if comment:
         lines.append('# edit %d' % comment)
